@@ -414,6 +414,20 @@ func (c *Ctx) checkCacheGet(rule string) {
 			}
 		}
 	}
+	// every comma-ok lookup on the way to the entry (a two-level cache may test each level): a false outcome of any
+	// of them means "no entry"
+	lookupFlags := map[ssa.Value]bool{}
+	for _, b := range get.Blocks {
+		for _, in := range b.Instrs {
+			if lk, ok := in.(*ssa.Lookup); ok && lk.CommaOk {
+				if _, isMap := lk.X.Type().Underlying().(*types.Map); isMap {
+					for _, e := range ssax.Extracts(lk, 1) {
+						lookupFlags[e] = true
+					}
+				}
+			}
+		}
+	}
 	if entry == nil || found == nil {
 		c.R.Undecided(rule, fn+" shape", fn, c.P.Pos(get.Pos()), "Get does not look the entry up with a comma-ok map access yielding *Result")
 		return
@@ -481,7 +495,13 @@ func (c *Ctx) checkCacheGet(rule string) {
 			}
 		} else {
 			misses++
-			if !(fknown && !fv) && !v.viol {
+			noEntry := fknown && !fv
+			for _, ev := range p.events {
+				if lookupFlags[ev.cond] && !ev.truth {
+					noEntry = true
+				}
+			}
+			if !noEntry && !v.viol {
 				add("miss without cause", "a path reports a miss although the entry exists and no stored counter exceeds the current one: the wrapped parser runs again at a position it has already been run at")
 			}
 		}
